@@ -17,9 +17,8 @@ Clause(r) ==
     IF r.refused_at > 0
     THEN \* the k-th write raised: acceptable only if IPS cannot represent that block
          LET w == ws[r.refused_at] IN
-         IF ~Representable(w, RealK, r.header) \/
-            (Len(w.data) > 0 /\ w.addr + Shift(RealK, r.header) <= RealK.eof
-                             /\ RealK.eof < w.addr + Shift(RealK, r.header) + Len(w.data))
+         \* (a block that merely covers the EOF address can be split around it, so it must be written)
+         IF ~Representable(w, RealK, r.header) \/ StartsAtMarker(w, RealK, r.header)
          THEN "ok" ELSE "a representable block was refused"
     ELSE FileClause(r.file, ws, RealK, r.header)
 
